@@ -114,6 +114,9 @@ func (d *Doc) Get(f Field) uint64 {
 	return 0
 }
 
+// Set overwrites a field (truncated to its width).
+func (d *Doc) Set(f Field, v uint64) { d.set(f, v) }
+
 func (d *Doc) set(f Field, v uint64) {
 	var bo binary.ByteOrder = binary.LittleEndian
 	if f.BE {
